@@ -438,6 +438,7 @@ fn session(ctx: &Ctx, out: &mut Outcome, run_seed: u64, r: &mut Rng) {
         liveness: false,
         flood: false,
         max_len: 12_000,
+        overload: false,
     };
     let mut mons: Vec<Box<dyn Monitor>> = vec![
         Box::new(MemoryOracle::new()),
